@@ -14,6 +14,7 @@ c08race are supporting evidence only).
 import Verif.Lemmas.StateCacheConc
 import Verif.Lemmas.StateCacheWitness
 import Verif.Model.StateCacheLocks
+import Verif.Lemmas.StateCacheLayers
 namespace Verif.Props.C08
 open Verif.SC
 
@@ -161,13 +162,19 @@ example : (entryAt (twoCommitters.run [0, 1, 1, 0, 0, 1, 0, 0, 0, 1, 1, 1, 1, 1,
     and transaction caches every read and every write of guarded state — the fields some method writes (the pending maps,
     `blockHash`) and `committed`, which `commit` writes through its parameter — happens with the cache's own mutex held,
     exclusively for writes, at least shared for reads, on the calling goroutine (`guardedOK`); every method that touches
-    guarded state does so in a single critical section (`atomicOK`), which is what lets the model treat each block /
-    transaction cache operation as one atomic step; and the operations the model has are in the table and do touch
-    guarded state (`present`). Fields nobody writes after construction (`main`, `prevBlockHash`, `round`) and the atomic
-    counters may be read anywhere. `TransactionCache.Commit` hands its writes to the block (`main.setValue`) with `tc.mu`
-    still held exclusively (`publishOK`): taking the write set and applying it are one critical section, so the
-    transaction's own `Get` never finds the write set empty and the block not yet updated. Statements that touch no field of the receiver (a `Clone()` of the caller's argument
-    before the lock, a copy made for the caller after it) are unconstrained. -/
+    guarded state of its own object does so in a single critical section of that object's mutex (`atomicOK`): it is
+    atomic WITH RESPECT TO ITS OWN OBJECT. It is NOT one atomic step of the whole system when it calls into another
+    object: those calls (`crossUnderLock`) are separate critical sections of the other object's mutex —
+    `TransactionCache.Commit` keeps `tc.mu` (`publishOK`: taking the write set and applying it are one critical section
+    of `tc.mu`, so the transaction's own `Get` never finds the write set empty and the block not yet updated) but enters
+    the block cache's `mu` once per key (`setValue`), so `BlockCache.Get`, another transaction's `Get` or the block's
+    `Commit` may run between two keys and see half a transaction; `BlockCache.Get` and `TransactionCache.Get` hold
+    their mutex while the next layer's `Get` runs. The interleaving model `LConc` (`Verif/Model/StateCacheLayers.lean`)
+    has exactly these steps; the sequential model `Sys` folds them, which is the same thing without concurrency.
+    The operations the model has are in the table and do touch guarded state (`present`). Fields nobody writes after
+    construction (`main`, `prevBlockHash`, `round`) and the atomic counters may be read anywhere; statements that touch no
+    field of the receiver (a `Clone()` of the caller's argument before the lock, a copy made for the caller after it) are
+    unconstrained. -/
 theorem layer_lock_facts :
     Verif.SCLocks.guardedOK Verif.Gen.LockFacts.blockCache ["committed"] = true ∧
     Verif.SCLocks.atomicOK Verif.Gen.LockFacts.blockCache ["committed"] = true ∧
@@ -179,7 +186,87 @@ theorem layer_lock_facts :
     (["Get", "Set", "Remove", "Commit"].all
       (Verif.SCLocks.present Verif.Gen.LockFacts.transactionCache [])) = true ∧
     Verif.SCLocks.publishOK Verif.Gen.LockFacts.transactionCache ["setValue", "remove"] = true ∧
-    Verif.SCLocks.publishes Verif.Gen.LockFacts.transactionCache ["setValue", "remove"] "Commit" = true := by
+    Verif.SCLocks.publishes Verif.Gen.LockFacts.transactionCache ["setValue", "remove"] "Commit" = true ∧
+    (Verif.SCLocks.crossUnderLock Verif.Gen.LockFacts.transactionCache).all
+      (fun c => ["setValue", "remove", "addStats", "Get", "Round"].contains c) = true ∧
+    (Verif.SCLocks.crossUnderLock Verif.Gen.LockFacts.blockCache).all (fun c => ["Get"].contains c) = true := by
+  decide
+
+/-- `C08_visible_after_returned_commit`: stated from ANY configuration reached by a run, not from the initial one. After
+    a run `pre` (any schedule) in which the commit of thread `tid` has returned, the block is in the tree with the writes
+    the commit carried, and every lookup thread that has not started yet — for a key `k` the block wrote, at that block —
+    completes, under every continuation `post` without eviction and whatever the other threads do meanwhile, with exactly
+    the block's entry: a hit with the written value, or a miss if the block removed the key. -/
+theorem C08_visible_after_returned_commit {c : Conc K B V} {T : Tree K B V} (hI : Inv c.sc T none) (h0 : c.Initial)
+    (pre post : List Nat) (hev : ((c.run pre).run post).sc.evictions = c.sc.evictions)
+    {tid : Nat} {m : Committer K B V} {b : Bool}
+    (hm : (c.run pre).threads[tid]? = some (Thread.committer m)) (hdone : m.pc = .done b) :
+    ∃ x, (Conc.treeRun T c pre).find m.hash = some x ∧
+      ∀ (k : K) (e : Entry V), alookup x.writes k = some e →
+      ∀ (j : Nat), (c.run pre).threads[j]? = some (Thread.reader (Reader.init k m.hash)) →
+      ∃ r, ((c.run pre).run post).threads[j]? = some (Thread.reader r) ∧ ∀ res, r.pc = .done res → res = e.result := by
+  have h1 : (c.run pre).sc.evictions = c.sc.evictions :=
+    Nat.le_antisymm (by rw [← hev]; exact Conc.run_ev_le _ post) (Conc.run_ev_le c pre)
+  have h2 : ((c.run pre).run post).sc.evictions = (c.run pre).sc.evictions := by rw [hev, h1]
+  obtain ⟨hC, _, _⟩ := Conc.run_inv pre (CInv.init hI h0) h1
+  obtain ⟨x, hx, hl, _⟩ := commit_published hI h0 pre h1 hm hdone
+  refine ⟨x, hx, fun k e hw j hj => ?_⟩
+  obtain ⟨r, hr, _, _, hV⟩ := Conc.run_visible post hC h2 hl hx hw hj rfl rfl (by unfold VInv Reader.init; trivial)
+  refine ⟨r, hr, fun res hres => ?_⟩
+  unfold VInv at hV; rw [hres] at hV; exact hV
+
+/-- `C08_layers_hit_correct` — the per-key statement of C08 for ALL layers. `LConc` (`Verif/Model/StateCacheLayers.lean`)
+    interleaves, at the granularity the lock facts justify, `BlockCache.Set / Get / Commit`, `TransactionCache.Set /
+    Remove / Get` and `TransactionCache.Commit` — the latter ONE STEP PER KEY into the block cache — with the steps of the
+    `StateCache.Get` / `StateCache.commit` threads they hand their work to. For every schedule of these steps without
+    eviction, from any state whose state cache satisfies the invariant:
+    * the state-cache invariant with the commit in flight as its only hole still holds (`CInv`), commits stay serialised;
+    * every lookup that fell through to the state cache (`BlockCache.Get` / `TransactionCache.Get` at the block cache's
+      `base`, a query transaction at its block) and completed with a hit returns the ancestor-chain value of ITS key at
+      ITS block in the tree of the commits begun so far.
+    A lookup answered from a pending map returns that map's entry for the key at the instant of its atomic read
+    (`layer_direct_hit`). C08 is a PER-KEY property: a `BlockCache.Get` or another transaction's `Get` running between two
+    `setValue` steps of a `TransactionCache.Commit` sees some keys of that transaction and not yet others; for each key
+    the answer is the pending entry at that instant or the chain value at `base` — never a value of another key or block.
+    The transaction's own `Get` is excluded while its `Commit` holds `tc.mu`. -/
+theorem C08_layers_hit_correct {H : Type} [DecidableEq H] {l : LConc H K B V} {T : Tree K B V}
+    (hI : Inv l.base.sc T none) (h0 : l.base.Initial) (hn : BcsNodup l)
+    (sched : List (LStep H K B V)) (hev : (l.run sched).base.sc.evictions = l.base.sc.evictions) :
+    CInv (l.run sched).base (LConc.treeRun T l sched) ∧
+    ∀ (tid : Nat) (r : Reader K B V) (v : V), (l.run sched).base.threads[tid]? = some (Thread.reader r) →
+      r.pc = .done (some v) → Chain (LConc.treeRun T l sched) r.key r.blk (.val v) := by
+  have hL := LConc.run_inv sched ⟨CInv.init hI h0, hn⟩ hev
+  refine ⟨hL.cinv, fun tid r v hr hv => ?_⟩
+  have := hL.cinv.readers tid r hr
+  unfold RInv at this; rw [hv] at this
+  exact this v rfl
+
+/-- `layer_direct_hit`: what the atomic read of `BlockCache.Get` does — a pending entry of the key is the answer (a
+    removal misses) and the state cache is not consulted; without one the lookup continues as a `StateCache.Get` thread
+    at the block cache's `base` (its own hash once its commit took effect, its parent before). -/
+theorem layer_direct_hit {H : Type} [DecidableEq H] (l : LConc H K B V) (h : H) (k : K) (bc : BC K B V)
+    (hb : alookup l.bcs h = some bc) (hfree : l.isBusy h = false) :
+    (∀ e, alookup bc.cache k = some e →
+      (l.step (.bget h k)).direct = (h, k, e.result) :: l.direct ∧ (l.step (.bget h k)).base = l.base) ∧
+    (alookup bc.cache k = none →
+      (l.step (.bget h k)).direct = l.direct ∧
+      (l.step (.bget h k)).base = l.base.spawn (Thread.reader (Reader.init k bc.base))) := by
+  constructor
+  · intro e he
+    simp only [LConc.step, LConc.lookupBlock, hb, hfree, he]
+    exact ⟨rfl, rfl⟩
+  · intro he
+    simp only [LConc.step, LConc.lookupBlock, hb, hfree, he]
+    exact ⟨rfl, rfl⟩
+
+/-- half a transaction is observable, per key correctly: between two `setValue` steps of a `TransactionCache.Commit`
+    writing keys 1 and 2 into block cache 0, `BlockCache.Get` answers key 1 from the pending map (new value 7) and hands
+    key 2 to the state cache (a reader thread at the parent block is spawned) -/
+example :
+    let l0 : LConc Nat Nat Nat Nat :=
+      ⟨⟨SC.new 200 2000, none, []⟩, [(0, ⟨11, 10, [], false⟩)], [(5, ⟨.block 0, [(1, .val 7), (2, .val 8)]⟩)], [], [], []⟩
+    let l := l0.run [.tcBegin 5, .tcApply 5, .bget 0 1, .bget 0 2]
+    l.direct = [(0, 1, some 7)] ∧ l.base.threads.length = 1 ∧ l.jobs.map (fun j => j.rest) = [[(2, .val 8)]] := by
   decide
 
 /-- the premise `Inv c.sc T none` is what any sequential history without eviction establishes -/
